@@ -129,7 +129,9 @@ def _renumber(t, lvnum=None, cvnum=None):
     def rule(x):
         h = x[0] if x else None
         if h == 'after':
-            return ('after', num('L', x[1]), x[2]) if not (isinstance(x[1], str) and x[1].startswith('#')) else None
+            # which loop a value comes out of is told by the value itself (its carried body), not by a number that depends on what
+            # else the term mentions
+            return ('after', '#L', x[2]) if not (isinstance(x[1], str) and x[1].startswith('#')) else None
         if h == 'loopvar':
             if isinstance(x[1], str) and x[1].startswith('#'):
                 return None
@@ -155,7 +157,7 @@ def _renumber(t, lvnum=None, cvnum=None):
             # the order in which a particular term happens to mention it
             return x[:4] + (_ANUM[0].get(x[4]) or num('a', x[4]),)
         if h in ('inloop', 'handler') and len(x) == 2 and isinstance(x[1], int):
-            return (h, num('L', x[1]))
+            return (h, '#L')
         return None
     return subst(t, rule)
 
@@ -480,7 +482,11 @@ class Summary:
                 sites.setdefault(t_[4], t_)
         groups_ = {}
         for uid_, t_ in sites.items():
-            groups_.setdefault(digest(_mask0(t_)), []).append(uid_)
+            try:
+                key_ = digest(_arith(_resort(_phitable(_mask0(_simplify2(t_))))))       # what is allocated, in canonical form
+            except Exception:
+                key_ = digest(_mask0(t_))
+            groups_.setdefault(key_, []).append(uid_)
         anum = {}
         for dg_, uids_ in groups_.items():
             for rk_, uid_ in enumerate(sorted(uids_)):
@@ -500,10 +506,19 @@ class Summary:
             except Exception:
                 return ''
         loop_order = sorted(range(len(loops_)), key=lambda i_: (_loop_key(loops_[i_]), i_))
-        lvnum = {}
+        # a loop variable is identified by what it runs over, how deeply its loop is nested and its position in the loop target - not by
+        # its spelling: `for sample in samples` twice in a row binds "the same" variable whether or not the second is called sample2
+        lvnum, canon_ = {}, {}
         for i_ in loop_order:
-            for tn, itx in loops_[i_].data[2]:          # in the order of the loop target, with the iteration term each one carries
-                lvnum.setdefault((tn, itx), len(lvnum))
+            depth_ = sum(1 for c, _ in loops_[i_].conds if isinstance(c, tuple) and c and c[0] == 'inloop')
+            for pos_, (tn, itx) in enumerate(loops_[i_].data[2]):          # in the order of the loop target, with the iteration term each one carries
+                try:
+                    ck_ = (digest(_resort(_phitable(_mask0(_simplify2(itx))))), depth_, pos_)
+                except Exception:
+                    ck_ = (tn, digest(itx), depth_, pos_)
+                if ck_ not in canon_:
+                    canon_[ck_] = len(canon_)
+                lvnum.setdefault((tn, itx), canon_[ck_])
         self.lvnum = lvnum
         self._raw_returns = []
         # loop-carried values are ranked by what they are (loop, initial value, update), not by the order in which a traversal
@@ -751,9 +766,9 @@ def _straight_line(fn):
         return None
     # branches, loops and raises may be part of the body as long as the one `return` is its last statement
     for st in body[:-1]:
-        if not isinstance(st, (ast.Assign, ast.AugAssign, ast.AnnAssign, ast.Expr, ast.If, ast.For, ast.While, ast.Raise, ast.Assert, ast.Pass)):
+        if not isinstance(st, (ast.Assign, ast.AugAssign, ast.AnnAssign, ast.Expr, ast.If, ast.For, ast.While, ast.Raise, ast.Assert, ast.Pass, ast.With)):
             return None
-    if any(isinstance(n, (ast.Return, ast.Yield, ast.YieldFrom, ast.Lambda, ast.FunctionDef, ast.Global, ast.Nonlocal, ast.Try, ast.With))
+    if any(isinstance(n, (ast.Return, ast.Yield, ast.YieldFrom, ast.Lambda, ast.FunctionDef, ast.Global, ast.Nonlocal, ast.Try))
            for st in body[:-1] for n in ast.walk(st)):
         return None
     return body
